@@ -31,6 +31,8 @@ PROP = "C04"
 KWLEN = 10              # keyword length used by the driver (bytes)
 MIN_ID = 8              # identifiers of at least 8 random bytes
 MIN_CT = 32             # the shortest AES-CBC ciphertext: IV + one block (C14)
+MIN_ITEM = 16           # a stored entry value of at least one cipher block is compared within / across setups (a randomized
+                        # encryption cannot be shorter; on the current tree every such value is an AES-CBC ciphertext >= MIN_CT)
 # containers whose values are not ciphertext entries (look-up / hash tables whose values are masks, SSE-2's clear identifiers)
 NOT_CT = {"CGKO06.SSE1": {"T"}, "CGKO06.SSE2": {"I"}, "DP17.Pi": {"HT"}}
 MC_INVS_A = ["NoPlainLeafInv", "EntriesDistinctInv", "TwoSetupsDisjointInv"]
@@ -270,7 +272,7 @@ def ct_items(scheme, leaves, ctlen):
     items = []
     skip = NOT_CT.get(scheme, set())
     for tab, role, x in leaves:
-        if role != "v" or tab in skip or not isinstance(x, (bytes, bytearray)) or len(x) < MIN_CT:
+        if role != "v" or tab in skip or not isinstance(x, (bytes, bytearray)) or len(x) < MIN_ITEM:
             continue
         x = bytes(x)
         if ctlen and len(x) > ctlen and len(x) % ctlen == 0:
@@ -444,7 +446,14 @@ def run_case(job):
     key = sch.KeyGen()
     key_parts = [v for _t, _r, v in walk_obj(key) if isinstance(v, (bytes, bytearray))]
     edbs, sers, calls = [], [], []
+    # "encrypting the same database twice under the same key": every other case does the second setup with a scheme
+    # object of its own (same configuration, same key), as a second run of the program would
+    fresh2 = job.get("fresh2", seed_ % 2 == 1)
+    info["fresh2"] = bool(fresh2)
     for i in (1, 2):
+        if i == 2 and fresh2:
+            sch = ml.SSEScheme(cfg)
+            install(sch)
         REC.start()
         try:
             edb = sch.EDBSetup(key, db)
@@ -779,7 +788,7 @@ def main(argv_tier=None, replay_path=None):
     return finish(PROP, tr, t0, cov, vio_out, seen, assumptions=[
         "'no leak' is decided at the level of byte occurrence (real runs) and of term structure (model), not computational indistinguishability; "
         "PRF, PRP, hash and encryption are ideal in the model",
-        "ciphertext-bearing items = every bytes value / element of at least 32 bytes in the deserialized index, except the containers whose values are "
+        "ciphertext-bearing items = every bytes value / element of at least 16 bytes (one cipher block) in the deserialized index, except the containers whose values are "
         "masks or clear identifiers by design (SSE-1 T, DP17 HT, SSE-2 I); CT14 / ANSS16 / DP17 blocks are cut at the ciphertext length",
         "keys come from the real KeyGen; both setups use the same key object and the same database; keywords and identifiers are random bytes "
         "(first byte non-zero)",
